@@ -62,14 +62,17 @@ def main():
     chk.run_contracts("contracts.c09", fallback={"*": fb})
     for f in fb():
         chk.report_failure(f)
-    driver.run_family(
-        chk, "run-euler-vs-delayed-recurrence", families(chk.tier, chk.seed), cases.case_fn, site="C09/run",
+    _cases = families(chk.tier, chk.seed)
+    _results = driver.run_family(
+        chk, "run-euler-vs-delayed-recurrence", _cases, cases.case_fn, site="C09/run",
         rule="circuits with delayed edges only / mixed delayed+undelayed from different sources / one source with several "
              "delays / one target with several delays / an undelayed edge sharing its source with a delayed one / 4-node "
              "rings with two delay values and with a permuted uniform delay; vectorize off and on; every state variable, "
              "every row against the recurrence target_in[k] = w*source[k - round(d/dt)] (0 before the start); distinct = "
              "distinct (model, T, dt, vectorize)",
         sample_of=lambda c: {k: v for k, v in c.items() if k not in ('features',)})
+    driver.run_sequences(chk, "run-euler-vs-delayed-recurrence-in-sequence", _cases, _results, cases.case_fn, site="C09/run",
+                         limit=20 if chk.tier == "quick" else 120, seed=chk.seed)
     rc = chk.finish(
         explanation="Bounded: run(solver='euler') of every family member against the explicitly delayed recurrence computed by "
                     "the spec (spec_fixed_step), element-wise at rtol 1e-7. Deductive part (when present): the delay "
